@@ -183,6 +183,29 @@ fn inner(name: &str, a: &[String]) -> String {
             Ok(x) => format!("Ok {}", e(x)),
             Err(_) => "Err".to_string(),
         },
+        "compute_gregorian" => {
+            let (y, mo, dd, h, mi, sec, ns) = Epoch::compute_gregorian(dur(a, 0), scale(&a[2]));
+            format!("{y} {mo} {dd} {h} {mi} {sec} {ns}")
+        }
+        "decompose" => {
+            let (sg, dd, h, mi, sec, ms, us, ns) = dur(a, 0).decompose();
+            format!("{sg} {dd} {h} {mi} {sec} {ms} {us} {ns}")
+        }
+        "subdivision" => match dur(a, 0).subdivision(unit(&a[2])) {
+            Some(x) => format!("Some {}", d(x)),
+            None => "None".to_string(),
+        },
+        "epoch_field_hours" => format!("{}", Epoch::from_duration(dur(a, 0), scale(&a[2])).hours()),
+        "epoch_field_minutes" => format!("{}", Epoch::from_duration(dur(a, 0), scale(&a[2])).minutes()),
+        "epoch_field_seconds" => format!("{}", Epoch::from_duration(dur(a, 0), scale(&a[2])).seconds()),
+        "epoch_field_milliseconds" => format!("{}", Epoch::from_duration(dur(a, 0), scale(&a[2])).milliseconds()),
+        "epoch_field_microseconds" => format!("{}", Epoch::from_duration(dur(a, 0), scale(&a[2])).microseconds()),
+        "epoch_field_nanoseconds" => format!("{}", Epoch::from_duration(dur(a, 0), scale(&a[2])).nanoseconds()),
+        "weekday_utc" => format!("{}", u8::from(Epoch::from_duration(dur(a, 0), scale(&a[2])).weekday_utc())),
+        "weekday_tai" => format!("{}", u8::from(Epoch::from_duration(dur(a, 0), scale(&a[2])).weekday())),
+        "epoch_next" => e(Epoch::from_duration(dur(a, 0), scale(&a[2])).next(crate::Weekday::from(p::<u8>(&a[3])))),
+        "epoch_previous" => e(Epoch::from_duration(dur(a, 0), scale(&a[2])).previous(crate::Weekday::from(p::<u8>(&a[3])))),
+        "weekday" => format!("{}", u8::from(Epoch::from_duration(dur(a, 0), scale(&a[2])).weekday_in_time_scale(scale(&a[3])))),
         "epoch_floor" => e(Epoch::from_duration(dur(a, 0), scale(&a[2])).floor(dur(a, 3))),
         "epoch_ceil" => e(Epoch::from_duration(dur(a, 0), scale(&a[2])).ceil(dur(a, 3))),
         "epoch_round" => e(Epoch::from_duration(dur(a, 0), scale(&a[2])).round(dur(a, 3))),
